@@ -51,6 +51,68 @@ func (g *gen) laneReal() {
 	g.realGRPC()
 	g.realWS()
 	g.realTruncation()
+	g.realInterleave()
+}
+
+// realInterleave: ping-pong handlers over full-duplex sockets with the whole
+// request in one DATA frame / one TCP write (several messages per read) or in
+// frames that straddle message boundaries.
+func (g *gen) realInterleave() {
+	r := g.r
+	seqs := [][]string{{"T", "T", "T"}, {"D5", "T", "D9", "E"}, {"X", "D40", "X", "T"}}
+	if r.Thorough() {
+		seqs = append(seqs, []string{"E", "E", "T", "E"}, []string{"D130", "T", "T"}, []string{"D1", "D1", "D1", "D1", "D1", "D1"})
+	}
+	type mode struct {
+		echo      string
+		every     int
+		interfere bool
+	}
+	modes := []mode{{"long", 1, false}, {"long", 2, false}, {"short", 1, false}, {"long", 1, true}}
+	tcs := []tcombo{{"http", "json", ""}, {"http", "proto", ""}, {"grpc", "proto", ""}, {"grpc-web", "proto", ""}}
+	frags := []int{0, 3}
+	for _, frag := range frags {
+		for _, tc := range tcs {
+			for si, kinds := range seqs {
+				for mi, md := range modes {
+					if !r.Thorough() && frag > 0 && mi > 0 {
+						continue
+					}
+					c := &Case{Lane: "h2c", T: tc.T, Codec: tc.Codec, Shape: "bidi", Echo: true, EchoMode: md.echo, EchoEvery: md.every, Interfere: md.interfere, Frag: frag, Trunc: -1}
+					c.Msgs = g.msgs(kinds, tc, 0)
+					build(c, bodyOpt{sep: []string{"", "\n"}[si%2]})
+					scheds := [][]int{nil, g.randomCuts(len(c.Body))}
+					names := []string{"one-frame", "random-frames"}
+					for i := range scheds {
+						d := clone(c)
+						d.Cuts, d.Sched = scheds[i], names[i]
+						g.runReal(d)
+					}
+				}
+			}
+		}
+		// HttpBody chunks echoed as they arrive
+		for _, L := range []int{7, 64} {
+			for mi, md := range modes {
+				c := &Case{Lane: "h2c", T: "http", Codec: "httpbody", Shape: "upbidi", Limit: L, Echo: true, EchoMode: md.echo, EchoEvery: md.every, Interfere: md.interfere, Frag: frag, Trunc: -1, Sched: "one-frame", Msgs: [][]byte{prf(g.rng, 3*L+1+mi)}}
+				build(c, bodyOpt{})
+				g.runReal(c)
+			}
+		}
+		// grpc-go and WebSocket: pipelined sends, long / sparse echoes
+		for si, kinds := range seqs {
+			for _, md := range modes[:3] {
+				c := &Case{Lane: "grpc-go", T: "grpc", Codec: []string{"proto", "gzip"}[si%2], Shape: "bidi", Echo: true, EchoMode: md.echo, EchoEvery: md.every, Frag: frag, Trunc: -1, Sched: "pipelined"}
+				c.Msgs = g.msgs(kinds, tcombo{"grpc", c.Codec, ""}, 0)
+				build(c, bodyOpt{})
+				g.runReal(c)
+				w := &Case{Lane: "ws", T: "ws", Codec: "json", Shape: "bidi", Echo: true, EchoMode: md.echo, EchoEvery: md.every, Frag: frag, Trunc: -1, Sched: "text-frames"}
+				w.Msgs = g.msgs(kinds, tcombo{"ws", "json", ""}, 0)
+				w.Body, w.Segs = wsFrames(w, g.wsMask())
+				g.runReal(w)
+			}
+		}
+	}
 }
 
 func (g *gen) realSeqs() [][]string {
